@@ -90,6 +90,16 @@ Theorem C18_min_first_with_restarts : forall h c chs j,
 Proof. exact min_first_restarts. Qed.
 Print Assumptions C18_min_first_with_restarts.
 
+(* ... as the two client-visible rules, for histories with any number of restarts: priority first, FIFO (serial,
+   which restarts preserve: C18_ids_not_reused) within one priority. *)
+Theorem C18_priority_then_fifo_with_restarts : forall h c chs j,
+  let s := rrun h init in
+  In (ODeliver c chs j) (snd (step s (StartPull c chs))) ->
+  forall k q p x, q_get (s_queues s) k = Some q -> (chs = [] \/ mem k chs = true) -> In (p, x) q ->
+  is_done (s_jobs s) x = false -> j_prio j <= p /\ (p = j_prio j -> j_serial j <= x).
+Proof. exact prio_fifo_restarts. Qed.
+Print Assumptions C18_priority_then_fifo_with_restarts.
+
 (* "Unfinished jobs (including ones a worker had pulled but not finished) are pullable again in the same
    priority/FIFO order": in restore (save s), for any s reachable with the full alphabet and earlier restarts, what a
    pull hands out at once is unfinished and not larger, in the order (priority, serial) the jobs had BEFORE the restart
